@@ -246,7 +246,10 @@ def run(repo: Repo, rep: Report, tier: str) -> None:
     from sa.flatten import flatten as _flgen
 
     # the comparison step may have been extracted into a helper of the class (`if self._differs_from_existing(...)`): write it out
-    gen = _flgen(gen, select=lambda h: any(isinstance(c.func, ast.Attribute) and c.func.attr == "_show_diffs" for c in calls_in(h.node)))
+    gen = _flgen(gen, select=lambda h: any(isinstance(c.func, ast.Attribute) and c.func.attr in ("_show_diffs", "copyfile", "copy", "copy2") for c in calls_in(h.node)))
+    from sa.flatten import inline_module_constants as _imc9
+
+    gen = _imc9(gen)  # a file recognised by its name stays recognisable when the name is a module constant
     sw, atoms, _ = c10.find_mode_switch(gen)  # type: ignore[misc]
     env0 = {a: True for a in atoms}
     env0["force"] = False
@@ -317,9 +320,18 @@ def run(repo: Repo, rep: Report, tier: str) -> None:
                 d_tmp = ("call", "tempfile.TemporaryDirectory") in droots or ("call", "tempfile.mkdtemp") in droots
                 if ".exception_registry.json" in src_txt and ("param", "project_root") in sroots and not s_tmp and d_tmp and ".exception_registry.json" in dst_txt:
                     seeded = True
-                    # must precede the exceptions emitter
-                    first_emit = e_diff[0][1].lineno if e_diff else 0
-                    if n.lineno < first_emit:
+                    # must precede the exceptions emitter (position in the - possibly flattened - statement sequence, not line numbers)
+                    order: Dict[int, int] = {}
+
+                    def _dfs(x: ast.AST) -> None:
+                        order[id(x)] = len(order)
+                        for ch in ast.iter_child_nodes(x):
+                            _dfs(ch)
+
+                    for s_ in diff_body:
+                        _dfs(s_)
+                    first_emit_pos = min((order.get(id(e_[1]), 10 ** 9) for e_ in e_diff), default=10 ** 9)
+                    if order.get(id(n), 10 ** 9) < first_emit_pos:
                         rep.ok("R9.6", f"{gen.module.relpath}:generate registry seeding", "existing .exception_registry.json is copied into the temp core before the first emit", gen.loc(n))
                     else:
                         rep.violation("R9.6", f"{gen.module.relpath}:generate registry seeding", f"{gen.fq}|registry-seed-late", "the registry is copied after the emitters ran", gen.loc(n))
